@@ -8,6 +8,7 @@ PATHS = ["ssh", "x509", "x509k8s", "role", "refresh", "aws"]
 RSA_BITS = [512, 768, 1024, 1536, 2040, 2041, 2047, 2048, 2049, 3072, 4096]
 RSA_E = [3, 17, 65535, 65537, 65539]
 OTHERS = ["ec:224", "ec:256", "ec:384", "ec:521", "ed25519", "dsa", "x25519"]
+CRED_KEYS = ["rsa:1024:65537", "rsa:2048:3", "rsa:2047:65537", "rsa:2048:65537", "ed25519", "ec:256"]
 MUT_BASES = ["rsa:2048:65537", "rsa:4096:65537", "ec:256", "ec:384", "ed25519", "rsa:1024:65537", "dsa"]
 
 
@@ -70,6 +71,14 @@ def gen_keys(ctx, n_mut):
                 multi.append((p, a, "multi:%s:%s" % (v, b.replace(":", "_"))))
     ops += multi
     n_mut += len(multi)
+    # requests that carry no key at all: whatever a path falls back to (the credential's own key, a directory, a command)
+    # is judged like any submitted key. On the refresh path the presented credential itself carries the named key.
+    nokey = [("refresh", "rsa:1024:65537", "nokey")]
+    for p in PATHS:
+        for s in (CRED_KEYS if p == "refresh" else ["x"]):
+            nokey.append((p, s, "nokey"))
+    ops += nokey
+    n_mut += len(nokey)
     while len(ops) < n_mut:
         p = rng.choice(PATHS)
         base = rng.choice(MUT_BASES)
@@ -182,6 +191,24 @@ def run(ctx):
         xops += want_x
     n_head = len(ops)
     ops += xops
+    # the same paths on a state the real loader built from a configuration file; when the tree accepts configuration keys
+    # the pinned list does not know, every such option is switched on first (string options name a program that prints a
+    # weak key)
+    new_opts = c11.new_config_options(facts)
+    cfgkeys = []
+    if want_x is None and not ctx.replay:
+        for p in PATHS:
+            for s in ["rsa:2048:65537", "rsa:1024:65537", "rsa:2047:65537", "rsa:2048:3", "ec:256", "ec:224", "ed25519", "dsa"]:
+                if expected_desc(p, s) is not None:
+                    cfgkeys.append((p, s, "-"))
+            for s in (CRED_KEYS if p == "refresh" else ["x"]):
+                cfgkeys.append((p, s, "nokey"))
+            cfgkeys.append((p, "rsa:1024:65537", "multi:ab:rsa_2048_65537"))
+    elif ctx.replay:
+        cfgkeys = [tuple(w.split()[2:5]) for w in want if w.startswith("cfg key ")] if want_h is not None or want_x is not None else []
+    n_cfg = len(ops)
+    if cfgkeys:
+        ops += ["usecfg " + c.hexs(json.dumps(new_opts))] + ["key %s %s %s" % k for k in cfgkeys]
     impl, log, rc = c.run_harness(ctx, "cmd/keymasterd", "C10", ops)
     if rc != 0 or len(impl) != len(ops):
         ctx.broken.append("harness TestVerifC10 did not complete (exit %d, %d/%d lines)" % (rc, len(impl), len(ops)))
@@ -195,7 +222,13 @@ def run(ctx):
 
     mops, mimpl, jops, jmeta = [], [], [], []
     nontrivial = set()
-    for k, op, out in zip(keys, ops[1:1 + len(keys)], impl[1:1 + len(keys)]):
+    cfg_report = impl[n_cfg] if cfgkeys else "-"
+    if cfgkeys and not cfg_report.startswith("cfg "):
+        ctx.broken.append("configuration-file state could not be built: %s" % cfg_report)
+        cfgkeys = []
+    all_keys = [(k, op, out, "") for k, op, out in zip(keys, ops[1:1 + len(keys)], impl[1:1 + len(keys)])] + \
+               [(k, "cfg " + op, out, "cfg") for k, op, out in zip(cfgkeys, ops[n_cfg + 1:], impl[n_cfg + 1:])]
+    for k, op, out, where in all_keys:
         path, spec, mut = k
         if out.startswith("bad-op"):
             ctx.broken.append("harness could not run %r" % op)
@@ -215,13 +248,17 @@ def run(ctx):
         bump(hist["path_outcome"], path + ":" + outcome)
         if outcome != "issue":
             bump(hist["refusal_status"], status)
-        mops.append("key %s %s %s" % (path, desc, f.get("re", "1")))
+        if where == "cfg":
+            bump(hist.setdefault("config_file_state", {}), path + ":" + outcome)
+        if mut == "nokey":
+            bump(hist.setdefault("no_key_requests", {}), "%s%s:%s" % (where and where + ":", path, outcome))
+        mops.append("key %s %s %s" % (path, "unparsable" if desc == "absent" else desc, f.get("re", "1")))
         mimpl.append(outcome)
         jops.append("jkey %s %s %s %s %s" % (path, desc, status, same, f.get("certkey", "-")))
         if mut.startswith("multi:"):
             bump(hist.setdefault("multi_key_uploads", {}), "%s:%s" % (path, outcome))
         jmeta.append(op)
-        if outcome == "issue" or desc != "unparsable":
+        if outcome == "issue" or desc not in ("unparsable", "absent"):
             nontrivial.add((path, desc, f.get("re", "1")))
     model = drv(ctx, "model", mops)
     c.diff_streams(ctx, "six issuing paths vs KM.KeyStrength.decide'", mops, mimpl, model)
@@ -247,7 +284,7 @@ def run(ctx):
                             "token parser target %s (%s) panicked: %s; token/payload %r" % (t[0], t[1], c.unhexs(f.get("panic", "-")), t[2][:300]),
                             {"op": op, "impl": out})
     # ---- malformed address extensions through every registered route
-    ximpl = impl[n_head:]
+    ximpl = impl[n_head:n_cfg]
     control_routes = set()
     ext_requests = ext_route_panics = 0
     for op, out in zip(xops, ximpl):
@@ -283,13 +320,14 @@ def run(ctx):
                 if ext_panics <= 3:
                     c.add_violation(ctx, "panic:" + line, "handler panicked on a client certificate's address extension", {"handler_op": line, "impl": out})
     ctx.coverage.update({
-        "evaluations": len(keys) + len(toks) + 2 * len(hops) + ext_requests,
-        "key_submissions": len(keys), "token_submissions": len(toks), "address_extension_requests": 2 * len(hops) + ext_requests,
+        "evaluations": len(keys) + len(cfgkeys) + len(toks) + 2 * len(hops) + ext_requests,
+        "key_submissions": len(keys) + len(cfgkeys), "token_submissions": len(toks), "address_extension_requests": 2 * len(hops) + ext_requests,
         "distinct_nontrivial": len(nontrivial),
         "rule": "non-trivial = distinct (path, parsed key description, regexp verdict) triples that reached the strength test "
                 "(certificate issued or a parsable key refused); token and address-extension streams are supporting evidence only "
                 "(fuzzing is not a proof) and counted separately",
         "histogram": hist, "address_extension_panics": ext_panics,
+        "config_file_state": cfg_report, "new_config_options": new_opts,
         "facts": {k: f10.get(k) for k in ("thresholds", "paths", "ssh_key_types", "dispatch")},
         "samples": [{"op": o, "impl": i} for o, i in list(zip(ops, impl))[1:4] + list(zip(ops, impl))[400:402] + list(zip(ops, impl))[-2:]],
     })
